@@ -178,6 +178,31 @@ def real_lattice(bits, mantissas=None, exps=None):
     return out
 
 
+def decimal_lattice(bits):
+    """decimal "round" reals: short significands x every decimal exponent of the type (the values
+    whose printed form has no fraction digits, or switches between fixed and exponent notation)"""
+    lo, hi = (-46, 39) if bits == 32 else (-325, 309)
+    out = []
+    for sig in ('1', '2', '5', '9', '1.5', '12', '99', '123456789', '1.2345678901234567'):
+        for e in range(lo, hi + 1):
+            for sign in ('', '-'):
+                try:
+                    f = float('%s%se%d' % (sign, sig, e))
+                except (ValueError, OverflowError):
+                    continue
+                if bits == 32:
+                    f = float32_round(f)
+                if f == f and f not in (float('inf'), float('-inf')):
+                    out.append(f)
+    return out
+
+
+# a small decimal lattice for the checks in which every real is a whole case (C01, C07, C08)
+DECIMAL_REALS = [float('%s%se%d' % (sg, sig, e)) for sig in ('1', '2', '1.5') for sg in ('', '-')
+                 for e in (-300, -30, -9, -8, -5, -4, -3, -1, 0, 1, 3, 4, 5, 8, 15, 16, 17, 21, 22, 23, 30, 300)]
+DECIMAL_REALS32 = [f for f in DECIMAL_REALS if 1e-37 < abs(f) < 1e38]
+
+
 DATETIMES = ['20140924193040.654321+120', '00010101000000.000000+000', '99991231235959.999999-999',
              '20000229000000.000000+999', '2014092419****.******+000', '19700101******.******+000',
              '20140924193040.654***-060']
